@@ -165,6 +165,7 @@ pub fn engine_cfg(case: &Case, path: &str) -> EngineCfg {
             e.reopen_np_factor = if case.seed % 2 == 0 { 4 } else { 1 };
             e.num_pages = e.num_pages.max(4096);
         }
+        "C16" => e.reopen_np_cycle = Some(case.seed),
         "C03" => {
             // a reader and a growing writer on one thread self-deadlock by construction
             // (documented misuse): start large enough that no commit extends the file
